@@ -1,5 +1,7 @@
 import Pfst.JsonUtil
 import Pfst.ParseWrap
+import Pfst.SeqFix
+import Pfst.TrailSep
 /-! Driver package for C05: `_astloc_from_src`, `_offset_linenos`, fragment rebasing, `_verify_no_close_delimiters`,
 delimiter depth / matching. -/
 namespace Pfst.Drv.C05
@@ -69,6 +71,23 @@ def dispatch (f : String) (j : Json) : Option Json :=
       let d := scanDepth o c s.toList 0
       let m := matchClose o c (s.toList ++ [c]) 0
       return Json.mkObj [("depth", ofOpt ofNat d), ("match", ofOpt ofNat m), ("len", ofNat s.toList.length)]
+  | "C05.fix_seq" => some <| Id.run do
+      let some ls := (get j "lines").bind asStrs | return Json.mkObj [("err", "bad lines")]
+      let some e0 := (get j "e0").bind parseLoc | return Json.mkObj [("err", "bad e0")]
+      let some en := (get j "en").bind parseLoc | return Json.mkObj [("err", "bad en")]
+      let some e0 := e0 | return Json.mkObj [("err", "bad e0")]
+      let some en := en | return Json.mkObj [("err", "bad en")]
+      let e1 := getInt j "e1"
+      let some ae := getInt j "ast_end" | return Json.mkObj [("err", "bad ast_end")]
+      let some ln := getInt j "lineno" | return Json.mkObj [("err", "bad lineno")]
+      let (o, c) := delims j
+      return locJson (Pfst.SeqFix.fixSeq (ls.map String.toList) e0 en e1 ae ln o c)
+  | "C05.trailing_sep" => some <| Id.run do
+      let some src := getStr j "src" | return Json.mkObj [("err", "bad src")]
+      let some ln := getNat j "end_lineno" | return Json.mkObj [("err", "bad end_lineno")]
+      let some col := getNat j "end_col" | return Json.mkObj [("err", "bad end_col")]
+      let sep := match (getStr j "sep").map String.toList with | some [c] => c | _ => ','
+      return Json.bool (Pfst.TrailSep.hasTrailingSep sep src.toList ln col)
   | "C05.span" => some <| Id.run do
       -- text of a span inside the wrapper vs inside the source (both sides of `wrap_positions`)
       let some pre := getStr j "pre" | return Json.mkObj [("err", "bad pre")]
